@@ -65,6 +65,35 @@ def check(tier, seed):
                                         res.violation('configuration item does not round-trip (group/item/size/value/consumed or key id)',
                                                       {'property': 'C13', 'input': desc, 'packed': packed, 'unpacked': un, 'expected': exp},
                                                       f'c13-rt|{g}|{i}|{bits}|{signed}|{v!r}')
+        # one item OBJECT through several pack() calls with its key changed in between (no stale cached key bytes)
+        from ubxlib.cfgkeys import CfgKeyData as CK_
+        for _ in range(40 if tier == 'quick' else 2000):
+            it = CK_('x', rng.randrange(256), rng.randrange(4096), rng.choice([8, 16, 32]), 1, False)
+            for _k in range(3):
+                desc = {'group': it.group_id, 'item': it.item_id, 'bits': it.bits, 'signed': it.signed, 'value': repr(it.value), 'reused_object': True}
+                cases.append(Case('cfg-pack-reused-object', 'cpack ' + K.item_token(it.group_id, it.item_id, it.bits, it.signed, it.value),
+                                  C.guarded(lambda: C.hexs(it.pack())), desc, kind='pack/reused'))
+                ch = rng.choice(['group', 'item', 'bits', 'value', 'unpack'])
+                if ch == 'group':
+                    it.group_id = rng.randrange(256)
+                elif ch == 'item':
+                    it.item_id = rng.randrange(4096)
+                elif ch == 'bits':
+                    it.bits = rng.choice([8, 16, 32, 64])
+                elif ch == 'value':
+                    it.value = rng.randrange(200)
+                else:
+                    raw = ((rng.choice([2, 3, 4]) << 28) | (rng.randrange(256) << 16) | rng.randrange(4096)).to_bytes(4, 'little') + bytes([rng.randrange(100), 0, 0, 0])
+                    it.unpack(bytearray(raw))
+        # from_key: every call yields an independent item (a modified earlier result must not come back)
+        for key in sorted(kt['consts'].values())[:12]:
+            bits = [0, 1, 8, 16, 32, 64, 0, 0][(key >> 28) & 7]
+            v = True if bits == 1 else 5
+            first = CK_.from_key(key, v)
+            first.value = False if bits == 1 else 77
+            first.item_id = (first.item_id + 1) & 0xFFF
+            impl = C.guarded(K.impl_fromkey, key, v)
+            cases.append(Case('cfg-from-key-twice', f'cfromkey {sk} {key} {K.cval_token(v)}', impl, {'key': hex(key), 'value': repr(v), 'after_mutating_first_result': True}, kind='fromkey-twice'))
         # published keys + random keys with zero reserved bits
         keys = sorted(kt['consts'].values())
         # neighbourhood of every published key: other size codes, adjacent item/group, reserved bits set
